@@ -39,6 +39,10 @@ FILES = [["root", "main.c"], ["root", "src", "a.c"], ["root", "src", "sub", "b.c
 FULL_TREE = [d + ["d"] for d in DIRS] + [f + ["f"] for f in FILES]
 
 
+# the tree used by the gcc oracle: the full pool plus a probe.h in every directory and a fallback directory
+ORACLE_TREE = FULL_TREE + [d + ["probe.h", "f"] for d in DIRS] + [["probe0", "d"], ["probe0", "probe.h", "f"]]
+
+
 def tree_key(tree):
     return hashlib.sha1(json.dumps(sorted(tree)).encode()).hexdigest()[:12]
 
@@ -64,7 +68,10 @@ def make_tree(tree) -> Path:
         q = base.joinpath(*p)
         if kind == "f":
             q.parent.mkdir(parents=True, exist_ok=True)
-            q.write_text(f"#include <probe.h>\nint file_marker_{i};\n")
+            if p[-1] == "probe.h":
+                q.write_text(f"int probe_marker_{i};\n")
+            else:
+                q.write_text(f"int file_marker_{i};\n#include <probe.h>\n")
     _made[k] = base
     return base
 
@@ -154,8 +161,9 @@ class C13(Check):
     def gen_entry(self, tree, root, level):
         rng = self.rng
         objs = tree_objects(tree)
-        dirs = [list(p) for p, isd in objs.items() if isd]
-        files = [list(p) for p, isd in objs.items() if not isd]
+        # the probe headers of the oracle tree are never named by an entry
+        dirs = [list(p) for p, isd in objs.items() if isd and p[0] != "probe0"]
+        files = [list(p) for p, isd in objs.items() if not isd and p[-1] != "probe.h"]
         e = {}
         # working directory of the compiler
         r = rng.random()
@@ -204,7 +212,7 @@ class C13(Check):
                     parts.append(["-isystem", v])
             for _ in range(rng.choice([0, 1, 2])):
                 parts.append(rng.choice(NOISE))
-            parts.append([e["file"]] if e["file"] and not e["file"].startswith("-") else [])
+            parts.append([e["file"]] if e["file"] and not e["file"].startswith("-") and rng.random() < 0.9 else [])
             rng.shuffle(parts)
             argv += [t for p in parts for t in p]
         if rng.random() < 0.3 and all(t and " " not in t for t in argv):
@@ -273,7 +281,26 @@ class C13(Check):
             out.append(self.gen_case(level=0 if i % 5 == 0 else 1))
         for i in range(n // 6):
             out.append(self.gen_case(malformed=True))
+        for i in range(n // 5):
+            out.append(self.gen_attr_case())
+        self.stats["dist"] = self.measure(out)
         return out
+
+    def gen_attr_case(self):
+        """A case on the oracle tree (a probe.h in every directory, every file includes <probe.h>) whose
+        per-file platform attribution through finder.find is observed as well."""
+        rng = self.rng
+        tree = [list(x) for x in ORACLE_TREE]
+        entries = []
+        for _ in range(rng.randint(1, 3)):
+            e = self.gen_entry(tree, ["root"], 1)
+            for k in ("arguments",):
+                if k in e:
+                    e[k] = ["-I" if t == "-isystem" else t for t in e[k]]
+            if "command" in e:
+                e["command"] = e["command"].replace("-isystem", "-I")
+            entries.append(e)
+        return {"tree": tree, "cwd": ["root"], "rootdir": BTAG + "/root", "entries": entries, "attr": 1}
 
     # -------------------------------------------------------------- plumbing
     def subst(self, s, base):
@@ -369,9 +396,41 @@ class C13(Check):
             ents.append([self.unsub(e["file"], base), [self.unsub(p, base) for p in e["include_paths"]]])
             if e["pass_name"] != "default":
                 ents[-1].append(e["pass_name"])
+        if case.get("attr"):
+            return ["Ok", ents, warns, self.attribution(case, base, res)]
         return ["Ok", ents, warns]
 
+    def attribution(self, case, base, db):
+        """Files with at least one code node attributed to the platform, through finder.find."""
+        import codebasin
+        from codebasin import finder, preprocessor
+        rootdir = os.path.abspath(str(base / "root"))
+        logging.disable(logging.CRITICAL)
+        try:
+            try:
+                cb = codebasin.CodeBase(rootdir)
+                state = finder.find(rootdir, cb, {"P": db})
+            except Exception as e:  # noqa
+                return ["Err", type(e).__name__]
+        finally:
+            logging.disable(logging.NOTSET)
+        out = []
+        for p, isd in sorted(tree_objects(case["tree"]).items()):
+            if isd:
+                continue
+            f = str(base.joinpath(*p))
+            tree = state.get_tree(f)
+            if tree is None:
+                continue
+            amap = state.get_map(f)
+            if any("P" in amap[n] for n in tree.walk() if isinstance(n, preprocessor.CodeNode)):
+                out.append([BTAG] + list(p))
+        return out
+
     # -------------------------------------------------------------- views
+    def impl_view_for_model(self, case, ia):
+        return ia[:3]
+
     def model_view(self, case, ans):
         base = make_tree(case["tree"])
         m = ans[0]
@@ -407,6 +466,18 @@ class C13(Check):
         if not ents:
             warns.append(["nofiles"])
         self._kflags = ans[2]
+        if case.get("attr"):
+            # only files named by entries, and what they include: every file includes <probe.h>,
+            # found in the first include directory (in command order) that has one
+            objs = tree_objects(case["tree"])
+            att = set()
+            for f, incs in ents:
+                att.add(tuple(f))
+                for i in incs:
+                    if i[:1] == [BTAG] and objs.get(tuple(i[1:]) + ("probe.h",)) is False:
+                        att.add(tuple(i) + ("probe.h",))
+                        break
+            return ["Ok", ents, warns, sorted(list(a) for a in att)]
         return ["Ok", ents, warns]
 
     @staticmethod
@@ -434,7 +505,7 @@ class C13(Check):
         for e in ia[1]:
             ents.append([self.str_loc(e[0]), [self.str_loc(i) for i in e[1]]] + e[2:])
         warns = [[w[0]] + [self.str_loc(x) for x in w[1:]] if w[0] == "missing" else w for w in ia[2]]
-        return ["Ok", ents, warns]
+        return ["Ok", ents, warns] + ia[3:]
 
     def in_domain(self, case, sa):
         # spec() has just been called for this case and left the kernel-agreement flags
@@ -475,8 +546,156 @@ class C13(Check):
                 c["entries"] = c["entries"][:k] + [{**e, "arguments": head + rest}] + c["entries"][k + 1:]
         return c
 
+    # -------------------------------------------------------------- distribution
+    def measure(self, cases):
+        d = {"entries": 0, "dir_absent": 0, "dir_absolute": 0, "dir_relative": 0, "file_absolute": 0,
+             "file_relative": 0, "file_with_dotdot": 0, "spelling_with_dot_or_empty_segment": 0,
+             "inc_values": 0, "inc_relative": 0, "inc_relative_under_directory": 0, "empty_command": 0,
+             "command_string": 0, "no_file_key": 0, "no_command_key": 0, "cases": len(cases),
+             "entries_per_case": {}}
+        for c in cases:
+            n = len(c["entries"])
+            d["entries_per_case"][n] = d["entries_per_case"].get(n, 0) + 1
+            for e in c["entries"]:
+                d["entries"] += 1
+                dr = e.get("directory")
+                d["dir_absent" if dr is None else ("dir_absolute" if dr.startswith(("/", BTAG)) else "dir_relative")] += 1
+                f = e.get("file")
+                if f is None:
+                    d["no_file_key"] += 1
+                else:
+                    d["file_absolute" if f.startswith(("/", BTAG)) else "file_relative"] += 1
+                    if ".." in f.split("/"):
+                        d["file_with_dotdot"] += 1
+                    if "." in f.split("/") or "" in f.split("/")[1:]:
+                        d["spelling_with_dot_or_empty_segment"] += 1
+                a = self.argv_of(e)
+                if a is None:
+                    d["no_command_key"] += 1
+                    continue
+                if "command" in e:
+                    d["command_string"] += 1
+                if not a:
+                    d["empty_command"] += 1
+                for v in self.inc_values(a):
+                    d["inc_values"] += 1
+                    if not v.startswith(("/", BTAG)):
+                        d["inc_relative"] += 1
+                        if dr is not None:
+                            d["inc_relative_under_directory"] += 1
+        return d
+
+    @staticmethod
+    def inc_values(argv):
+        out = []
+        j = 1
+        while j < len(argv):
+            t = argv[j]
+            if t in ("-I", "-isystem"):
+                if j + 1 < len(argv):
+                    out.append(argv[j + 1])
+                j += 2
+            elif t in ("-D", "-o", "-include", "-O"):
+                j += 2
+            elif t.startswith("-I"):
+                out.append(t[2:])
+                j += 1
+            else:
+                j += 1
+        return out
+
     def extra_coverage(self):
-        return {"input_distribution": self.stats.get("dist", {})}
+        return {"input_distribution": self.stats.get("dist", {}), "gcc_oracle": self.stats.get("oracle", {})}
+
+    # -------------------------------------------------------------- S versus gcc
+    def self_tests(self):
+        """Validate S (and the kernel-agreement flags K) against `gcc -E` started in the entry's directory."""
+        problems = []
+        if not common.driver_path(self.prop_id).exists():
+            return problems
+        rng = self.rng
+        n = 60 if self.tier == "quick" else 600
+        tree = [list(x) for x in ORACLE_TREE]
+        base = make_tree(tree)
+        order = sorted(tree)
+        marker = {}
+        for i, obj in enumerate(order):
+            *p, kind = obj
+            if kind == "f":
+                marker[tuple(p)] = i
+        cases = []
+        for _ in range(n):
+            e = self.gen_entry(tree, ["root"], 1)
+            cases.append({"tree": tree, "cwd": ["root"], "rootdir": BTAG + "/root", "entries": [e]})
+        try:
+            answers = common.run_model(self.prop_id, [self.encode(c) for c in cases])
+        except Exception as ex:  # noqa
+            return [f"gcc oracle: model driver failed: {ex}"]
+        st = {"entries": n, "gcc_runs": 0, "file_confirmed": 0, "include_dir_confirmed": 0,
+              "missing_confirmed": 0, "not_a_directory_include_confirmed": 0,
+              "outside_domain_confirmed_by_gcc": 0, "outside_domain": 0, "skipped_no_chdir": 0, "disagreements": 0}
+        for c, ans in zip(cases, answers):
+            if isinstance(ans, str) or ans[1] == "None":
+                continue
+            so = ans[1][1][0]
+            kflag = ans[2][0]
+            e = self.real_entries(c, base)[0]
+            ddir = os.path.join(str(base / "root"), e.get("directory", "."))
+            if so[0] == "unsupported":
+                continue
+            if not os.path.isdir(ddir):
+                st["skipped_no_chdir"] += 1
+                if kflag == 1 and so[0] == "open":
+                    st["disagreements"] += 1
+                    problems.append(f"gcc oracle: K flag says in-domain but chdir is impossible: {c['entries'][0]}")
+                continue
+            bl = [x for x in str(base).split("/") if x]
+            incs = self.inc_values(self.argv_of(e) or [])
+            runs = [(None, None)] if not incs else list(zip(incs, so[2] if so[0] == "open" else [None] * len(incs)))
+            for v, iloc in runs:
+                cmd = ["gcc", "-E", "-x", "c"] + (["-I", v] if v is not None else []) + ["-I", str(base / "probe0"), e["file"]]
+                p = subprocess.run(cmd, cwd=ddir, capture_output=True, text=True)
+                st["gcc_runs"] += 1
+                fm = [int(x) for x in __import__("re").findall(r"file_marker_(\d+)", p.stdout)]
+                pm = [int(x) for x in __import__("re").findall(r"probe_marker_(\d+)", p.stdout)]
+                if kflag != 1:
+                    st["outside_domain"] += 1
+                    # the lexical answer is not what the kernel does: gcc must differ somewhere
+                    if so[0] == "open":
+                        rel = tuple(so[1][len(bl):]) if so[1][:len(bl)] == bl else None
+                        same_file = fm[:1] == [marker.get(rel, -1)]
+                        same_inc = True
+                        if iloc is not None:
+                            irel = tuple(iloc[len(bl):]) + ("probe.h",) if iloc[:len(bl)] == bl else None
+                            same_inc = pm[:1] == [marker.get(irel, marker[("probe0", "probe.h")])]
+                        if not (same_file and same_inc):
+                            st["outside_domain_confirmed_by_gcc"] += 1
+                    continue
+                if so[0] == "missing":
+                    if p.returncode != 0 and not fm:
+                        st["missing_confirmed"] += 1
+                    else:
+                        st["disagreements"] += 1
+                        problems.append(f"gcc oracle: S says missing, gcc opened something: {c['entries'][0]}")
+                    continue
+                rel = tuple(so[1][len(bl):]) if so[1][:len(bl)] == bl else None
+                if fm[:1] == [marker.get(rel, -1)]:
+                    st["file_confirmed"] += 1
+                else:
+                    st["disagreements"] += 1
+                    problems.append(f"gcc oracle: file: S={so[1]} gcc marker={fm[:1]} entry={c['entries'][0]}")
+                if iloc is not None:
+                    irel = tuple(iloc[len(bl):]) + ("probe.h",) if iloc[:len(bl)] == bl else None
+                    want = marker.get(irel)
+                    if want is not None and pm[:1] == [want]:
+                        st["include_dir_confirmed"] += 1
+                    elif want is None and pm[:1] == [marker[("probe0", "probe.h")]]:
+                        st["not_a_directory_include_confirmed"] += 1
+                    else:
+                        st["disagreements"] += 1
+                        problems.append(f"gcc oracle: -I {v}: S={iloc} gcc probe marker={pm[:1]} entry={c['entries'][0]}")
+        self.stats["oracle"] = st
+        return problems[:5]
 
 
 CHECK = C13
